@@ -142,13 +142,17 @@ claim("C12",
       design_ref="DESIGN.md §5 C12")
 
 claim("C09",
-      text="Lean theorems (21) over an executable model of tsdb.write/_get_paths/write_database prove, for all histories and all "
+      text="Lean theorems (31) over an executable model of tsdb.write/_get_paths/write_database prove, for all histories and all "
            "start states (including both physical forms with arbitrary mtimes), that the read equals the last overwrite followed "
            "by the accepted later appends, and that exactly one file exists after any accepted write, compressed iff requested "
            "and non-empty (so stale data cannot resurface). They also prove that failed writes change nothing, that "
            "write_database (in place or not, with or without a new schema) gives every written relation exactly the pre-call "
            "source records remade by column name, and that no file remains for unwritten target-schema relations. The results "
-           "are lifted to records through C08's split/join round trip.",
+           "are lifted to records through C08's split/join round trip. Round 2 (31 theorems in all): the relations file written by "
+           "write_database/initialize_database is read back as exactly the target schema (names, datatypes, flags, comments) for "
+           "schemas over identifiers, incl. one-character relation names, proved at line level against a hand-coded model of the "
+           "two _parse_schema patterns; the stored text is split at \\n only in both physical forms, so string values containing "
+           "CR, NUL, VT, FF etc. survive, proved for all strings.",
       note="The model abstracts the file system: a relation is two optional line lists with logical mtimes, gzip is the identity, "
            "no crash points. Tied to the code by the correspondence run (4209 cases quick incl. exhaustive histories up to length "
            "3 over 6 start states; 34085 thorough). 'A rejected request changes nothing' holds in the model by construction; on "
